@@ -32,7 +32,8 @@ MANIFEST = dict(
           'already done), at most num_download_attempts requests, the empty object delivers one empty chunk. Offset-addressed '
           'destinations receive data-at-its-offset only (idempotent overwrite); streaming destinations receive each byte once '
           'in order through the DeferQueue contract (C16), also for immediate writes. Ranged submission: Range header i is '
-          'the window [i*c, (i+1)*c-1] (last open-ended), start_index = i*c, n = ceil_div(size, c), user extra args forwarded.'),
+          'the window [i*c, (i+1)*c-1] (last open-ended), start_index = i*c, n = ceil_div(size, c), user extra args forwarded.'
+          ' Every accepted chunk is handed to IO exactly once. Legacy S3Transfer single GET (_get_object / _do_get_object: every byte of the body is written, file opened from scratch per attempt) and ranged GET (_download_range, MultipartDownloader.download_file returns only if the parts thread and the IO thread both succeeded).'),
     note=('Each attempt body is the requested range of the same immutable object (A-RANGE-BODY); the single IO thread runs '
           'submitted writes in submission order (A-EXECUTOR); legacy and process-pool download loops are covered under '
           'their own properties where built.'),
